@@ -16,6 +16,19 @@ pub assume_specification<T, E, U, F: FnOnce(T) -> core::result::Result<U, E>> [c
     ensures match o { Ok(v) => f.ensures((v,), r), Err(e) => r == Err::<U,E>(e) };
 pub assume_specification<T> [bool::then_some] (b: bool, t: T) -> (r: Option<T>)
     ensures r == (if b { Some(t) } else { None::<T> });
+pub assume_specification<T, F: FnOnce(T) -> bool> [Option::<T>::is_some_and] (o: Option<T>, f: F) -> (r: bool)
+    requires o matches Some(v) ==> f.requires((v,)),
+    ensures match o { Some(v) => f.ensures((v,), r), None => !r };
+pub assume_specification<T, E> [Option::<core::result::Result<T, E>>::transpose] (o: Option<core::result::Result<T, E>>) -> (r: core::result::Result<Option<T>, E>)
+    ensures r == (match o { Some(Ok(x)) => Ok::<Option<T>,E>(Some(x)), Some(Err(e)) => Err::<Option<T>,E>(e), None => Ok::<Option<T>,E>(None) });
+pub assume_specification<T> [Option::<Option<T>>::flatten] (o: Option<Option<T>>) -> (r: Option<T>)
+    ensures r == (match o { Some(x) => x, None => None::<T> });
+// R4d: &[u8] -> [u8; N] where the caller knows the length (`.try_into().unwrap()`)
+pub trait VxIntoArr { spec fn vx_view(self) -> Seq<u8>; fn vx_into_arr<const N: usize>(self) -> (r: [u8; N]) requires self.vx_view().len() == N ensures r@ == self.vx_view(); }
+impl<'a> VxIntoArr for &'a [u8] {
+    open spec fn vx_view(self) -> Seq<u8> { self@ }
+    #[verifier::external_body] fn vx_into_arr<const N: usize>(self) -> (r: [u8; N]) { self.try_into().unwrap() }
+}
 // R6: Option<Vec<T>>::as_deref (Deref-generic in std)
 pub trait VxAsDeref<T> { fn vx_as_deref(&self) -> (r: Option<&[T]>) ensures vx_opt_slice_view(r) == self.vx_spec_view(); spec fn vx_spec_view(&self) -> Option<Seq<T>>; }
 pub open spec fn vx_opt_slice_view<T>(o: Option<&[T]>) -> Option<Seq<T>> { match o { Some(s) => Some(s@), None => None } }
@@ -85,6 +98,11 @@ impl vstd::std_specs::convert::FromSpecImpl<Ctap2Error> for StatusCode {
     open spec fn from_spec(e: Ctap2Error) -> StatusCode { StatusCode::Ctap2(Ctap2Code::Known(e)) }
 }
 //@ extract err impl From<Ctap2Error> for StatusCode
+impl vstd::std_specs::convert::FromSpecImpl<U2FError> for StatusCode {
+    open spec fn obeys_from_spec() -> bool { true }
+    open spec fn from_spec(e: U2FError) -> StatusCode { StatusCode::Ctap1(e) }
+}
+//@ extract err impl From<U2FError> for StatusCode
 pub open spec fn sc(e: Ctap2Error) -> StatusCode { StatusCode::Ctap2(Ctap2Code::Known(e)) }
 
 // ---- authenticator data as a spec-level record (the real constructor / setters are verified in unit V-AD
@@ -132,6 +150,11 @@ impl AuthenticatorData {
 pub mod passkey_types {
     use super::*;
     pub use super::Bytes;
+    pub mod crypto {
+        use vstd::prelude::*;
+        use crate::*;
+        #[verifier::external_body] pub fn hmac_sha256(key: &[u8], data: &[u8]) -> (r: [u8; 32]) ensures r@ == spec_hmac(key@, data@) { unimplemented!() }
+    }
     pub mod rand {
         use vstd::prelude::*;
         #[verifier::external_body] pub fn random_vec(len: usize) -> (r: Vec<u8>) ensures r@.len() == len { unimplemented!() }
@@ -145,7 +168,7 @@ pub mod passkey_types {
     }
     pub mod ctap2 {
         use super::*;
-        pub use crate::{Flags, Ctap2Error, StatusCode, Ctap2Code, AuthenticatorData, AttestedCredentialData, Aaguid};
+        pub use crate::{Flags, Ctap2Error, U2FError, StatusCode, Ctap2Code, AuthenticatorData, AttestedCredentialData, Aaguid};
         pub mod extensions {
             use super::*;
             use std::collections::HashMap;
@@ -157,6 +180,17 @@ pub mod passkey_types {
             //@ extract xprf struct AuthenticatorPrfGetOutputs
             //@ extract xhm struct HmacGetSecretInput
             //@   deep
+            //@ extract xhm struct HmacSecretSaltOrOutput
+            //@   pubfields
+            //@   noderive
+            impl HmacSecretSaltOrOutput {
+                // abstract view: the first 32-byte value and the optional second one
+                pub open spec fn spec_first(&self) -> Seq<u8> { self.salts@.subrange(0, 32) }
+                pub open spec fn spec_second(&self) -> Option<Seq<u8>> { if self.has_salt2 { Some(self.salts@.subrange(32, 64)) } else { None } }
+            }
+            //@ extract xhm impl HmacSecretSaltOrOutput
+            //@   only new first second
+            //@   external_body new
         }
         pub mod make_credential {
             use super::*;
@@ -233,6 +267,8 @@ impl VxExtend<Bytes> for Vec<u8> {
 }
 // ---- p256 signing (assumed): the signature is a function of the COSE private key and the message
 pub uninterp spec fn spec_sign(key: CoseKey, msg: Seq<u8>) -> Seq<u8>;
+// HMAC-SHA-256 (assumed)
+pub uninterp spec fn spec_hmac(key: Seq<u8>, data: Seq<u8>) -> Seq<u8>;
 pub uninterp spec fn spec_secret_of(key: CoseKey) -> SecretKey;
 pub uninterp spec fn spec_cose_of_secret(sk: SecretKey) -> CoseKey;
 pub broadcast axiom fn axiom_secret_roundtrip(key: CoseKey)
@@ -353,11 +389,48 @@ pub mod authenticator {
     };
     use crate::{CredentialStore, UserValidationMethod};
     pub mod extensions {
-        use vstd::prelude::*;
-        #[verifier::external_body] pub struct Extensions { _p: u8 }
-        impl Extensions { #[verifier::external_body] pub fn list_extensions(&self) -> Option<Vec<crate::passkey_types::ctap2::get_info::Extension>> { unimplemented!() } }
+        use super::*;
+        use crate::passkey_types::{ctap2::{get_assertion, get_info, make_credential, StatusCode}, Passkey};
+        pub mod hmac_secret {
+            use super::*;
+            use std::ops::Not;
+            use crate::passkey_types::{
+                crypto::hmac_sha256,
+                ctap2::{extensions::{AuthenticatorPrfGetOutputs, AuthenticatorPrfInputs, AuthenticatorPrfMakeOutputs, AuthenticatorPrfValues, HmacSecretSaltOrOutput}, Ctap2Error, StatusCode, U2FError},
+                rand::random_vec,
+            };
+            use crate::Authenticator;
+            //@ source ahm passkey-authenticator/src/authenticator/extensions/hmac_secret.rs
+            //@ extract ahm struct HmacSecretConfig
+            //@   pubfields
+            //@ extract ahm enum HmacSecretCredentialSupport
+            //@ extract ahm impl HmacSecretCredentialSupport
+            //@ extract ahm impl HmacSecretConfig
+            //@   only hmac_secret_mc supports_no_uv
+            //@ extract ahm fn calculate_hmac_secret
+            //@ extract ahm fn select_salts
+            //@ extract ahm impl Authenticator
+            //@   rule R4d
+        }
+        pub use hmac_secret::{HmacSecretConfig, HmacSecretCredentialSupport};
+        //@ source aext passkey-authenticator/src/authenticator/extensions.rs
+        //@ extract aext struct Extensions
+        //@   pubfields
+        impl Extensions { #[verifier::external_body] pub fn list_extensions(&self) -> Option<Vec<get_info::Extension>> { unimplemented!() } }
+        //@ extract aext struct MakeExtensionOutputs
+        //@   makepub
+        //@ extract aext struct GetExtensionOutputs
+        //@   noderive
+        //@   makepub
+        // extension processing as a function of (configuration, stored secrets, request, uv) -- oracle for the
+        // assumed contracts of make_extensions / get_extensions (iterator-free but deeply nested closures)
+        pub uninterp spec fn spec_get_ext(cfg: Extensions, passkey: Passkey, request: Option<get_assertion::ExtensionInputs>, uv: bool) -> Result<GetExtensionOutputs, StatusCode>;
+        pub uninterp spec fn spec_make_ext(cfg: Extensions, request: Option<make_credential::ExtensionInputs>, uv: bool) -> Result<MakeExtensionOutputs, StatusCode>;
+        //@ extract aext impl Authenticator
+        //@   only make_extensions get_extensions
+        //@   external_body make_extensions get_extensions
     }
-    use extensions::Extensions;
+    use extensions::{Extensions, GetExtensionOutputs, MakeExtensionOutputs};
     //@ source auth passkey-authenticator/src/authenticator.rs
     //@ extract auth struct CredentialIdLength
     //@ extract auth struct Authenticator
@@ -368,35 +441,17 @@ pub mod authenticator {
         pub closed spec fn v_counter_cfg(&self) -> bool { self.make_credentials_with_signature_counter }
         pub closed spec fn v_id_len(&self) -> u8 { self.credential_id_length.spec_len() }
         pub closed spec fn v_aaguid(&self) -> Aaguid { self.aaguid }
+        pub closed spec fn v_ext(&self) -> Extensions { self.extensions }
     }
     //@ extract auth impl Authenticator
     //@   only store store_mut aaguid choose_algorithm check_user
     //@   external_body choose_algorithm
-    impl<S, U> Authenticator<S, U> {
-        // stage A: extension processing assumed (refined by the extensions stage)
-        #[verifier::external_body]
-        pub(super) fn get_extensions(&self, passkey: &Passkey, request: Option<passkey_types::ctap2::get_assertion::ExtensionInputs>, uv: bool) -> Result<GetExtensionOutputs, StatusCode> { unimplemented!() }
-    }
-    pub(super) struct GetExtensionOutputs {
-        pub signed: Option<passkey_types::ctap2::get_assertion::SignedExtensionOutputs>,
-        pub unsigned: Option<passkey_types::ctap2::get_assertion::UnsignedExtensionOutputs>,
-    }
     impl CredentialIdLength { pub closed spec fn spec_len(self) -> u8 { self.0 } }
     impl vstd::std_specs::convert::FromSpecImpl<CredentialIdLength> for usize {
         open spec fn obeys_from_spec() -> bool { true }
         open spec fn from_spec(v: CredentialIdLength) -> usize { v.spec_len() as usize }
     }
     //@ extract auth impl From<CredentialIdLength> for usize
-    impl<S, U> Authenticator<S, U> {
-        // stage A: extension processing assumed (refined by the extensions stage)
-        #[verifier::external_body]
-        pub(super) fn make_extensions(&self, request: Option<passkey_types::ctap2::make_credential::ExtensionInputs>, uv: bool) -> Result<MakeExtensionOutputs, StatusCode> { unimplemented!() }
-    }
-    pub(super) struct MakeExtensionOutputs {
-        pub signed: Option<passkey_types::ctap2::make_credential::SignedExtensionOutputs>,
-        pub unsigned: Option<passkey_types::ctap2::make_credential::UnsignedExtensionOutputs>,
-        pub credential: passkey_types::CredentialExtensions,
-    }
     mod get_info {
         use super::*;
         use crate::passkey_types::ctap2::get_info::{Options, Response, Version};
